@@ -136,6 +136,7 @@ pub fn generate(tier: &str, seed: u64, out: &Path, nshards: usize, replay: Optio
         ("hyp_registry_of", "hyp_registry_of"),
         ("hyp_prelude_nodocs", "hyp_prelude_nodocs"),
         ("hyp_identity_duplicates", "hyp_identity_duplicates"),
+        ("corr_registry_of1", "corr_registry_of1"),
         ("hyp_registry_of1", "hyp_registry_of1"),
         ("hyp_labels_agree", "hyp_labels_agree"),
         ("hyp_all_cf1", "hyp_all_cf1"),
